@@ -231,6 +231,16 @@ def request(case):
         return ['c16', mode, op, opd_sx(case['a']), bool(case.get('nozeros'))]
     if op == 'toeuler':
         return ['c16', mode, op, case['axes'], opd_sx(case['a'])]
+    if op == 'pole':
+        return ['c16', mode, op, sc_opd(case['a']), sc_opd(case['b'])]
+    if op == 'qrot':
+        v = vals_of(case['b'])
+        n = np.sqrt(np.sum(v ** 2, axis=-1))
+        return ['c16', mode, op, sc_opd(case['a'], True), opd_sx(case['b']), [ratstr(x) for x in np.ravel(n)]]
+    if op == 'twovec':
+        if twovec_ambiguous(case).any():
+            return None                   # (nearly) parallel vectors: float rounding decides between "masked" and an arbitrary frame
+        return ['c16', mode, op, opd_sx(case['a']), case['axis1'], opd_sx(case['b']), case['axis2']]
     if op == 'm2q':
         Q = vals_of(case['a'])
         diags = Q.reshape(Q.shape[:-2] + (9,))[..., ::4]
@@ -764,27 +774,54 @@ def j_mdiv(case, r):
     ref = A @ np.linalg.inv(np.where(sing[..., None, None], np.eye(n), B)) if B.size else np.zeros(out + tuple(a['numer']))
     return check(r, case, 'matrix / matrix', out, a['numer'], [], ref, or_masks(out, a, b) | sing, tol=1e-9, scale=np.abs(ref).max() if ref.size else 1.)
 
+def twovec_ambiguous(case):
+    """elements whose two vectors are non-zero and parallel up to 1e-6: the property does not say whether they are masked"""
+    a, b = case['a'], case['b']
+    out = bshape(a['shape'], b['shape'])
+    if out is None:
+        return np.zeros((), dtype=bool)
+    V = bc(vals_of(a), a, out, [3]); W = bc(vals_of(b), b, out, [3])
+    c = np.cross(V, W) if V.size else np.zeros(out + (3,))
+    nv, nw, nc = (np.sqrt(np.sum(x * x, axis=-1)) for x in (V, W, c))
+    return (nv > 0) & (nw > 0) & (nc <= 1e-6 * nv * nw)
+
 def j_twovec(case, r):
     a, b = case['a'], case['b']
     out = bshape(a['shape'], b['shape'])
     V = bc(vals_of(a), a, out, [3]); W = bc(vals_of(b), b, out, [3])
-    c = np.cross(V, W) if V.size else np.zeros(out + (3,))
-    degenerate = np.sum(c * c, axis=-1) == 0
-    res = mask_carry(r, case, 'twovec', out, a, b, extra=degenerate)
-    if res:
-        return res
-    res = rot_residual(r, case, 'twovec')
-    if res:
-        return res
+    zero = (np.sum(V * V, axis=-1) == 0) | (np.sum(W * W, axis=-1) == 0)
+    amb = twovec_ambiguous(case)
+    if tuple(r._shape_) != tuple(out):
+        return (signature(case) + ':shape', 'twovec: leading shape %s, expected %s' % (r._shape_, tuple(out)))
+    exp = or_masks(out, a, b) | zero
+    rm = expanded_mask(r)
+    bad = (rm != exp) & ~amb
+    if bad.any():
+        idx = tuple(int(x) for x in np.argwhere(bad)[0])
+        kind = 'mask-dropped' if exp[idx] else 'mask-extra'
+        return (signature(case) + ':' + kind, 'twovec: result mask at %s is %s, operands / zero vectors say %s' % (idx, bool(rm[idx]), bool(exp[idx])))
     v, pos = unmasked_items(r)
-    Vf, Wf = V.reshape(-1, 3), W.reshape(-1, 3)
+    Vf, Wf, af = V.reshape(-1, 3), W.reshape(-1, 3), amb.ravel()
+    for m, p in zip(v, pos):
+        e = np.abs(m @ m.T - np.eye(3)).max() if np.isfinite(m).all() else np.inf
+        d = abs(np.linalg.det(m) - 1.0) if np.isfinite(m).all() else np.inf
+        if not (e <= TOL and d <= TOL):
+            if af[p]:
+                return (signature(case) + ':near-parallel:orthonormal',
+                        'twovec(%s, %d, %s, %d): the vectors are parallel up to rounding, the result is unmasked and |M M^T - I| = %.3g'
+                        % (Vf[p].tolist(), case['axis1'], Wf[p].tolist(), case['axis2'], e))
+            return (signature(case) + ':orthonormal', 'twovec: element %d: |M M^T - I| = %.3g, |det - 1| = %.3g' % (p, e, d))
     a1, a2 = case['axis1'], case['axis2']
     for m, p in zip(v, pos):
         u1 = Vf[p] / np.linalg.norm(Vf[p])
+        if not np.abs(m[a1] - u1).max() <= TOL:
+            return (signature(case) + ':value', 'twovec: row axis1 is not unit(vector1)')
+        if af[p]:
+            continue
         w = m @ Wf[p] / np.linalg.norm(Wf[p])
         a3 = 3 - a1 - a2
-        if not (np.abs(m[a1] - u1).max() <= TOL and abs(w[a3]) <= 1e-9 and w[a2] > 0):
-            return (signature(case) + ':value', 'twovec: row axis1 is not unit(vector1) or vector2 is not in the (axis1, axis2>0) half plane')
+        if not (abs(w[a3]) <= 1e-9 and w[a2] > 0):
+            return (signature(case) + ':value', 'twovec: vector2 is not in the (axis1, axis2>0) half plane')
     return None
 
 def rodrigues(v, k, t):
